@@ -47,8 +47,8 @@ pub fn run_plain<T: PegParserAdvanced<()> + Debug>(input: &str, entry: Entry, ct
     let r = match entry {
         Entry::Parse => T::parse(input),
         Entry::Trace => T::parse_with_trace(input),
-        Entry::Sim => T::parse_advanced::<simrt::SimTracer>(input, &ParseSettings::default(), ()),
-        Entry::Noop => T::parse_advanced::<NoopTracer>(input, &ParseSettings::default(), ()),
+        Entry::Sim => T::parse_advanced::<simrt::SimTracer>(input, &current_settings(), ()),
+        Entry::Noop => T::parse_advanced::<NoopTracer>(input, &current_settings(), ()),
     };
     (format!("{r:?}"), ctx)
 }
@@ -59,11 +59,25 @@ pub fn run_ctx<T: for<'c> PegParserAdvanced<&'c mut Ctx> + Debug>(
     mut ctx: Ctx,
 ) -> (String, Ctx) {
     let r = match entry {
-        Entry::Parse | Entry::Noop => T::parse_advanced::<NoopTracer>(input, &ParseSettings::default(), &mut ctx),
-        Entry::Trace => T::parse_advanced::<IndentedTracer>(input, &ParseSettings::default(), &mut ctx),
-        Entry::Sim => T::parse_advanced::<simrt::SimTracer>(input, &ParseSettings::default(), &mut ctx),
+        Entry::Parse | Entry::Noop => T::parse_advanced::<NoopTracer>(input, &current_settings(), &mut ctx),
+        Entry::Trace => T::parse_advanced::<IndentedTracer>(input, &current_settings(), &mut ctx),
+        Entry::Sim => T::parse_advanced::<simrt::SimTracer>(input, &current_settings(), &mut ctx),
     };
     (format!("{r:?}"), ctx)
 }
 
 include!(concat!(env!("OUT_DIR"), "/corpus_generated.rs"));
+include!(concat!(env!("OUT_DIR"), "/settings_generated.rs"));
+
+thread_local! {
+    /// selector of the `ParseSettings` knobs for the next `parse_advanced` call of this thread (0 = defaults)
+    static SETTINGS_SEL: std::cell::Cell<u64> = const { std::cell::Cell::new(0) };
+}
+
+pub fn set_settings_selector(sel: u64) {
+    SETTINGS_SEL.with(|s| s.set(sel));
+}
+
+fn current_settings() -> ParseSettings {
+    seeded_settings(SETTINGS_SEL.with(|s| s.get()))
+}
